@@ -4,6 +4,7 @@ import (
 	"fmt"
 	"go/types"
 	"net"
+	"unicode"
 	"regexp"
 	"sort"
 	"strings"
@@ -122,6 +123,8 @@ func registerVrt(p *Program) {
 	intr["vrtFireTimers"] = func(fr *frame, a []value) value {
 		return fr.m.fireTimers()
 	}
+	intr["vrtSlept"] = func(fr *frame, a []value) value { return len(fr.m.sleeps) > 0 }
+	intr["vrtSleepReset"] = func(fr *frame, a []value) value { fr.m.sleeps = nil; return nil }
 	intr["vrtSymbolic"] = func(fr *frame, a []value) value { return true }
 	intr["vrtConcretizeInt"] = func(fr *frame, a []value) value { return fr.m.concretize(a[0], "vrtConcretize") }
 	intr["vrtAllocBudget"] = func(fr *frame, a []value) value {
@@ -788,6 +791,31 @@ func registerMisc(p *Program) {
 		return ""
 	}
 	ext["(*strings.Builder).copyCheck"] = nop
+	// unicode predicates and space trimming natively (the unicode tables are
+	// not initialised in the interpreter)
+	for name, f := range map[string]func(rune) bool{"IsSpace": unicode.IsSpace, "IsLetter": unicode.IsLetter, "IsDigit": unicode.IsDigit,
+		"IsUpper": unicode.IsUpper, "IsLower": unicode.IsLower, "IsPunct": unicode.IsPunct, "IsControl": unicode.IsControl,
+		"IsPrint": unicode.IsPrint, "IsNumber": unicode.IsNumber, "IsGraphic": unicode.IsGraphic} {
+		f := f
+		ext["unicode."+name] = func(fr *frame, a []value) value {
+			return f(rune(asInt64(fr.m.representative(a[0], "rune classified by unicode table"))))
+		}
+	}
+	ext["unicode.ToLower"] = func(fr *frame, a []value) value {
+		return unicode.ToLower(rune(asInt64(fr.m.representative(a[0], "rune case-mapped"))))
+	}
+	ext["unicode.ToUpper"] = func(fr *frame, a []value) value {
+		return unicode.ToUpper(rune(asInt64(fr.m.representative(a[0], "rune case-mapped"))))
+	}
+	ext["strings.TrimSpace"] = func(fr *frame, a []value) value {
+		return strings.TrimSpace(fr.m.concreteStr(a[0], "strings.TrimSpace"))
+	}
+	ext["strings.ToLower"] = func(fr *frame, a []value) value {
+		return strings.ToLower(fr.m.concreteStr(a[0], "strings.ToLower"))
+	}
+	ext["strings.ToUpper"] = func(fr *frame, a []value) value {
+		return strings.ToUpper(fr.m.concreteStr(a[0], "strings.ToUpper"))
+	}
 	ext["strings.Clone"] = func(fr *frame, a []value) value { return a[0] }
 	ext["internal/stringslite.Clone"] = func(fr *frame, a []value) value { return a[0] }
 
@@ -868,6 +896,15 @@ func registerMisc(p *Program) {
 			return tuple{"", "", fr.m.mkError(err.Error())}
 		}
 		return tuple{h, pt, iface{}}
+	}
+	// randomness: fixed representative values (listed as a stub in the evidence)
+	ext["math/rand.Float64"] = func(fr *frame, a []value) value { return float64(0.5) }
+	ext["math/rand.Intn"] = func(fr *frame, a []value) value { return 0 }
+	ext["math/rand.Int63n"] = func(fr *frame, a []value) value { return int64(0) }
+	ext["math/rand.Int"] = func(fr *frame, a []value) value { return 0 }
+	ext["math.Pow"] = func(fr *frame, a []value) value { return mathPow(a[0].(float64), a[1].(float64)) }
+	ext["net.Dial"] = func(fr *frame, a []value) value {
+		return tuple{iface{}, fr.m.mkError("dial tcp " + fr.m.concreteStr(a[1], "net.Dial") + ": connect: connection refused")}
 	}
 	ext["net.JoinHostPort"] = func(fr *frame, a []value) value {
 		return net.JoinHostPort(fr.m.concreteStr(a[0], "net.JoinHostPort"), fr.m.concreteStr(a[1], "net.JoinHostPort"))
@@ -967,6 +1004,15 @@ func registerMisc(p *Program) {
 func (m *Machine) concreteStr(v value, what string) string {
 	if s, ok := v.(string); ok {
 		return s
+	}
+	if ss, ok := v.(sstr); ok {
+		// one representative per symbolic byte (noted): the callee is a native
+		// std function that needs a concrete string
+		bs := make([]byte, len(ss.b))
+		for i, b := range ss.b {
+			bs[i] = byte(bitsOf(m.representative(b, "string passed to "+what)))
+		}
+		return string(bs)
 	}
 	panic(unsupported{"symbolic string passed to " + what})
 }
